@@ -135,6 +135,10 @@ def gen_lifetime(tier: str) -> Iterator[dict]:
         (["speed = 100", "speed = 250", "period = speed * 2", "mon.write(period)"], ["mon.write(period + speed)"]),
         (["n = 0"], ["for i in range(4):", "    if i == 1:", "        continue", "    mon.write(i)", "n += 1", "mon.write(n)"]),
         (["n = 0"], ["n += 1", "if n == 2:", "    continue", "mon.write(n)"]),
+        (['s = "."'], ["if len(s) > 3:", '    s = "."', "else:", '    s = s + "."', "mon.write(s)", "mon.write(len(s))"]),
+        (['s = "ab"', "w = [1]"], ["w.append(len(s))", 's = s + "c"', "mon.write(len(w) + len(s))"]),
+        (["n = 0"], ["n += 1", "if n == 1:", "    c = 10", "c += 1", "mon.write(c)"]),
+        (["n = 0"], ["n += 1", "if n == 1:", "    for i in range(2):", "        if i == 1:", "            d = 5", "d = d + n", "mon.write(d)"]),
         (["n = 0"], ["n += 1", "try:", "    if n == 2:", "        continue", "except:", "    n = 0", "mon.write(n)"]),
         (["n = 0"], ["n += 1", "try:", "    n = n + 0", "except:", "    continue", "if n == 3:", "    continue", "mon.write(n)"]),
         (["n = 0"], ["k = 0", "while k < 3:", "    k += 1", "    if k == 2:", "        continue", "    mon.write(k)", "n += 1", "mon.write(n)"]),
@@ -413,6 +417,13 @@ def judge(case, tr, dev_runs, host_runs):
     for dr in dev_runs:
         if not dr.ok:
             return "violation", f"firmware did not run cleanly: {dr.faults[:2]} exit={dr.exit_code}"
+        if case.get("space") == "H":
+            from . import c15
+
+            err = c15.button_monitor(case, case["runs"][dev_runs.index(dr)], dr)
+            if err:
+                return "violation", "monitor: " + err
+            continue
         if case.get("space") == "A":
             err = anim_site_monitor(case, dr)
             if err:
@@ -424,7 +435,7 @@ def judge(case, tr, dev_runs, host_runs):
     hr = host_runs[0]
     if hr.error is not None:
         return "skip_host_" + (hr.error_type or "error"), hr.error or ""
-    if case.get("space") == "A":
+    if case.get("space") in ("A", "H"):
         return "match_monitors_only", ""
     kinds = case.get("kinds", [])
     # ultrasonic retry/fallback and LCD cells have their own properties (C15/C17); compare what C05 is about
@@ -447,6 +458,16 @@ def generate(tier: str, only=None) -> Iterator[dict]:
         yield from gen_anim_sites(tier)
     if not only or "Y" in only:
         yield from gen_spellings(tier)
+    if not only or "H" in only:
+        # two buttons, a click handler that asks for the other button: every sample of the pass is taken (and visible)
+        # before any handler runs (the scripts and the monitor are C15's)
+        from . import c15
+
+        for si, sc in enumerate(c15.button_scripts()):
+            if "handlers" not in sc:
+                continue
+            runs = [{"passes": 4, "dr": {7: list(s0), 12: list(s1)}} for s0 in itertools.product((0, 1), repeat=5) for s1 in itertools.product((0, 1), repeat=5)]
+            yield {"id": f"H:{si}", "space": "H", "src": sc["src"], "runs": runs, "kinds": [], "meta": {k: sc[k] for k in ("where", "handler", "uses", "pins", "handlers")}}
 
 
 def main(tier: str, seed: int, only=None) -> int:
